@@ -1,5 +1,5 @@
 (* Proofs about the load-balancing and retry stub models (Stubs.v): C20. *)
-From Coq Require Import List NArith Bool Arith Lia.
+From Coq Require Import List NArith ZArith Bool Arith Lia.
 Import ListNotations.
 From TarpcV Require Import Base Stubs.
 Local Open Scope N_scope.
@@ -188,13 +188,13 @@ Proof.
   - exists (s + 1). split; [reflexivity|auto].
 Qed.
 
-Lemma retry_loop_gen (ovf : bool) (pol : sres -> N -> bool) (backend : nat -> sres) rq k :
+Lemma retry_loop_gen (ovf : bool) (pol : sres -> N -> bool) (backend : nat -> sres) (c : cx) rq k :
   N.of_nat k < (if ovf then W32 - 1 else W32) ->
   (forall j, (j < k - 1)%nat -> pol (backend j) (N.of_nat (S j)) = true) ->
   pol (backend (k - 1)%nat) (N.of_nat k) = false ->
   forall d m fuel, (m + S d = k)%nat -> (S d <= fuel)%nat ->
-  retry_loop fuel ovf pol backend rq m (N.of_nat (S m))
-  = flat_map (retry_item pol backend rq) (seq m (S d)) ++ [ODone (backend (k - 1)%nat)].
+  retry_loop fuel ovf pol backend c rq m (N.of_nat (S m))
+  = flat_map (retry_item pol backend c rq) (seq m (S d)) ++ [ODone (backend (k - 1)%nat)].
 Proof.
   intros Hk Hretry Hstop. induction d as [|d IH]; intros m fuel Hm Hf;
     (destruct fuel as [|f]; [lia|]); cbn [retry_loop].
@@ -211,17 +211,17 @@ Proof.
     cbn [seq flat_map retry_item app]. rewrite (Hretry m) by lia. reflexivity.
 Qed.
 
-Lemma c20_retry : forall (ovf : bool) (pol : sres -> N -> bool) (backend : nat -> sres) rq k fuel,
+Lemma c20_retry : forall (ovf : bool) (pol : sres -> N -> bool) (backend : nat -> sres) c rq k fuel,
   (1 <= k)%nat -> (k <= fuel)%nat ->
   N.of_nat k < (if ovf then W32 - 1 else W32) ->
   (forall j, (j < k - 1)%nat -> pol (backend j) (N.of_nat (S j)) = true) ->
   pol (backend (k - 1)%nat) (N.of_nat k) = false ->
-  retry fuel ovf pol backend rq = retry_trace pol backend rq k.
+  retry fuel ovf pol backend c rq = retry_trace pol backend c rq k.
 Proof.
-  intros ovf pol backend rq k fuel H1 Hf Hk Hr Hs. unfold retry, retry_trace.
+  intros ovf pol backend c rq k fuel H1 Hf Hk Hr Hs. unfold retry, retry_trace.
   destruct k as [|d]; [lia|].
   change 1 with (N.of_nat 1).
-  rewrite (retry_loop_gen ovf pol backend rq (S d) Hk Hr Hs d O fuel) by lia.
+  rewrite (retry_loop_gen ovf pol backend c rq (S d) Hk Hr Hs d O fuel) by lia.
   reflexivity.
 Qed.
 
@@ -234,10 +234,10 @@ Proof.
     assert (W32 = 4294967296) by reflexivity. lia.
 Qed.
 
-Lemma retry_prefix_wrap (pol : sres -> N -> bool) (backend : nat -> sres) rq : forall m fuel ncall start, start < W32 ->
+Lemma retry_prefix_wrap (pol : sres -> N -> bool) (backend : nat -> sres) (c : cx) rq : forall m fuel ncall start, start < W32 ->
   (forall j, (j < m)%nat -> pol (backend (ncall + j)%nat) ((start + N.of_nat j) mod W32) = true) ->
-  exists pre, retry_loop (m + fuel) false pol backend rq ncall start
-    = pre ++ retry_loop fuel false pol backend rq (ncall + m)%nat ((start + N.of_nat m) mod W32).
+  exists pre, retry_loop (m + fuel) false pol backend c rq ncall start
+    = pre ++ retry_loop fuel false pol backend c rq (ncall + m)%nat ((start + N.of_nat m) mod W32).
 Proof.
   induction m as [|m IH]; intros fuel ncall start Hs Hp.
   - exists []. cbn [Nat.add app]. rewrite Nat.add_0_r, N.add_0_r, N.mod_small by exact Hs.
@@ -251,7 +251,7 @@ Proof.
       rewrite N.add_mod_idemp_l by discriminate.
       replace (S ncall + j)%nat with (ncall + S j)%nat by lia.
       replace (start + 1 + N.of_nat j) with (start + N.of_nat (S j)) by lia. exact Hp. }
-    exists (OCall rq (backend ncall) :: OPol (backend ncall) start true :: pre).
+    exists (OCall c rq (backend ncall) :: OPol (backend ncall) start true :: pre).
     cbn [app]. rewrite E. rewrite N.add_mod_idemp_l by discriminate.
     replace (S ncall + m)%nat with (ncall + S m)%nat by lia.
     replace (start + 1 + N.of_nat m) with (start + N.of_nat (S m)) by lia. reflexivity.
@@ -259,10 +259,11 @@ Qed.
 
 Lemma retry_wrap_witness m : N.of_nat m = W32 - 1 ->
   In (OPol (SOk 0) 0 false)
-     (retry (m + 1) false (fun _ i => negb (i =? 0)) (fun _ => SOk 0) 7).
+     (retry (m + 1) false (fun _ i => negb (i =? 0)) (fun _ => SOk 0) (mkcx 0 0 false 0%Z) 7).
 Proof.
   intro Hm. unfold retry.
-  destruct (retry_prefix_wrap (fun _ i => negb (i =? 0)) (fun _ => SOk 0) 7 m 1%nat O 1) as [pre E].
+  destruct (retry_prefix_wrap (fun _ i => negb (i =? 0)) (fun _ => SOk 0) (mkcx 0 0 false 0%Z) 7
+              m 1%nat O 1) as [pre E].
   { reflexivity. }
   { intros j Hj. assert (W32 = 4294967296) by reflexivity.
     rewrite N.mod_small by lia. destruct (1 + N.of_nat j =? 0) eqn:Z; [|reflexivity].
@@ -272,29 +273,32 @@ Proof.
 Qed.
 
 Lemma c20_retry_wrap_refuted :
-  exists pol backend fuel rq res,
-    In (OPol res 0 false) (retry fuel false pol backend rq).
+  exists pol backend fuel c rq res,
+    In (OPol res 0 false) (retry fuel false pol backend c rq).
 Proof.
-  exists (fun _ i => negb (i =? 0)), (fun _ => SOk 0), (N.to_nat (W32 - 1) + 1)%nat, 7, (SOk 0).
+  exists (fun _ i => negb (i =? 0)), (fun _ => SOk 0), (N.to_nat (W32 - 1) + 1)%nat,
+         (mkcx 0 0 false 0%Z), 7, (SOk 0).
   apply retry_wrap_witness. apply N2Nat.id.
 Qed.
 
 (* ---- the monitor accepts every run ------------------------------------------------------- *)
 Lemma sres_eqb_refl r : sres_eqb r r = true.
 Proof. destruct r; cbn; auto using N.eqb_refl. Qed.
+Lemma cx_eqb_refl c : cx_eqb c c = true.
+Proof. unfold cx_eqb. rewrite !N.eqb_refl, Bool.eqb_reflx, Z.eqb_refl. reflexivity. Qed.
 
 (* retry *)
-Lemma mon_retry_loop (ovf : bool) (pol : sres -> N -> bool) (backend : nat -> sres) rq : forall fuel ncall i,
+Lemma mon_retry_loop (ovf : bool) (pol : sres -> N -> bool) (backend : nat -> sres) (c : cx) rq : forall fuel ncall i,
   N.of_nat fuel + i <= W32 - 1 ->
-  mon_retry rq i (retry_loop fuel ovf pol backend rq ncall i) = true.
+  mon_retry c rq i (retry_loop fuel ovf pol backend c rq ncall i) = true.
 Proof.
   induction fuel as [|f IH]; intros ncall i H; [reflexivity|].
   cbn [retry_loop]. destruct (iter_next_item ovf i) as [s' [E Hs]]; [intros _; lia|].
   rewrite E, Hs by lia.
   destruct (pol (backend ncall) i) eqn:D.
-  - cbn [mon_retry]. rewrite N.eqb_refl, sres_eqb_refl, N.eqb_refl. cbn [andb].
+  - cbn [mon_retry]. rewrite cx_eqb_refl, N.eqb_refl, sres_eqb_refl, N.eqb_refl. cbn [andb].
     apply IH. lia.
-  - cbn [mon_retry]. rewrite N.eqb_refl, !sres_eqb_refl, N.eqb_refl. reflexivity.
+  - cbn [mon_retry]. rewrite cx_eqb_refl, N.eqb_refl, !sres_eqb_refl, N.eqb_refl. reflexivity.
 Qed.
 
 Lemma mon_rt_run pol cap ovf : N.of_nat cap < W32 - 1 -> forall ops cur,
@@ -317,7 +321,7 @@ Proof.
   - specialize (IH ((rq, ch_pick h b rq) :: seen) cur).
     destruct (run_from (CCH b h) cur r) as [ls c2]. cbn [fst mon_ch] in *.
     assert (V : ch_pick h b rq <? b = true) by (apply N.ltb_lt, N.mod_lt; lia).
-    rewrite V, N.eqb_refl. cbn [andb].
+    rewrite V, cx_eqb_refl, N.eqb_refl. cbn [andb].
     assert (S1 : match seen_pick seen rq with Some k' => ch_pick h b rq =? k' | None => true end
                  = true).
     { destruct (seen_pick seen rq) as [k'|] eqn:E; [|reflexivity].
@@ -427,7 +431,7 @@ Proof.
     specialize (IH (t + 1)). unfold rr_bump.
     destruct (run_from (CRR b) ((t + 1) mod W64) r) as [ls c2]. cbn [fst mon_rr] in *.
     assert (V : rr_pick b t <? b = true) by (apply N.ltb_lt, N.mod_lt; lia).
-    rewrite V, N.eqb_refl. cbn [andb].
+    rewrite V, cx_eqb_refl, N.eqb_refl. cbn [andb].
     assert (E : zip_add (map (cnt b t) (iota b)) (tally b [rr_pick b t])
                 = map (cnt b (t + 1)) (iota b)).
     { unfold tally. rewrite zip_add_map. apply map_ext_iota. intros i Hi.
@@ -465,4 +469,33 @@ Proof.
     change 0 with (0 mod W64) at 2. apply mon_rr_run; lia.
   - apply mon_ch_run; [lia|]. intros q k A. discriminate.
   - apply mon_rt_run. exact H.
+Qed.
+
+(* ---- the caller's context reaches every attempt / the chosen backend unchanged ------------ *)
+Lemma retry_loop_same_context (ovf : bool) (pol : sres -> N -> bool) (backend : nat -> sres) c rq :
+  forall fuel ncall start c' rq' res,
+  In (OCall c' rq' res) (retry_loop fuel ovf pol backend c rq ncall start) -> c' = c /\ rq' = rq.
+Proof.
+  induction fuel as [|f IH]; intros ncall start c' rq' res H; cbn [retry_loop] in H.
+  - destruct H as [H|[]]. discriminate.
+  - destruct (iter_next ovf start) as [[i s']|].
+    + destruct H as [H|[H|H]]; [injection H; auto|discriminate|].
+      destruct (pol (backend ncall) i).
+      * exact (IH _ _ _ _ _ H).
+      * destruct H as [H|[]]. discriminate.
+    + destruct H as [H|[]]. discriminate.
+Qed.
+
+Lemma c20_retry_same_context :
+  forall (ovf : bool) (pol : sres -> N -> bool) (backend : nat -> sres) fuel c rq c' rq' res,
+  In (OCall c' rq' res) (retry fuel ovf pol backend c rq) -> c' = c /\ rq' = rq.
+Proof. intros. unfold retry in H. exact (retry_loop_same_context _ _ _ _ _ _ _ _ _ _ _ H). Qed.
+
+Lemma c20_balance_same_context : forall cf cur c rq k c' rq' resp,
+  In (OPick k c' rq' resp) (snd (step cf cur (Call c rq))) -> c' = c /\ rq' = rq.
+Proof.
+  intros [b|b h|pol cap ovf] cur c rq k c' rq' resp H; cbn [step snd] in H.
+  - destruct H as [H|[]]. injection H; auto.
+  - destruct H as [H|[]]. injection H; auto.
+  - destruct H.
 Qed.
